@@ -57,8 +57,12 @@ def violation_sites(ctx, name):
                 # who calls b? (one level: validate or a nested closure / async block of it)
                 callers = []
                 for c in region:
+                    # plain functions are read in their normalised view (helpers inlined, pipelines
+                    # and combinators expanded): provenance is then field- and path-precise
+                    if c.promoted is None and c.kind in ("Fn", "AssocFn") and not c.coroutine and c.id != b.id:
+                        c = ctx.inl(c, skip=ctx.domain_api, tag="domain", sugar=True)
                     for bj, tc in c.calls():
-                        if (tc.get("res") or tc.get("def")) == b.id:
+                        if (tc.get("res") or tc.get("def")) == b.id and bj in cfg_of(c).reachable:
                             callers.append((c, tc))
                 res.append((b, t, callers))
     return res
@@ -85,7 +89,7 @@ def run(ctx, out, tier):
     n_line = n_col0 = n_cols = n_idx = 0
     samples = []
     for name in LINE_LEVEL:
-        vb = ctx.validate_body(name)
+        vb = ctx.validate_body(name, inline=True, sugar=True)
         sites = violation_sites(ctx, name)
         if vb is None or not sites:
             out.viol("C10.line", "C10.line|%s|anchor" % name, "-", "no Violation::new site found for validator %s" % name)
